@@ -28,6 +28,8 @@ import (
 
 	bleve "github.com/blevesearch/bleve/v2"
 	"github.com/blevesearch/bleve/v2/analysis/analyzer/keyword"
+	"github.com/blevesearch/bleve/v2/index/scorch"
+	"path/filepath"
 	"github.com/blevesearch/bleve/v2/mapping"
 	"github.com/blevesearch/bleve/v2/search/query"
 
@@ -198,6 +200,8 @@ func battery() []request {
 		})},
 		{"prefix", mk(pq, scoreID, nil)},
 		{"match score:none", mk(mq, []string{"_id"}, func(r *bleve.SearchRequest) { r.Score = "none" })},
+		{"conj tags score:none", mk(bleve.NewConjunctionQuery(tq("tag", "t1"), tq("tag", "u0")), []string{"_id"}, func(r *bleve.SearchRequest) { r.Score = "none" })},
+		{"disj tags score:none", mk(bleve.NewDisjunctionQuery(tq("tag", "t2"), tq("tag", "u1")), []string{"_id"}, func(r *bleve.SearchRequest) { r.Score = "none" })},
 	}
 }
 
@@ -359,6 +363,94 @@ func diskLayout(prefix string, cfg bx.Config) layout {
 	}}
 }
 
+// noMergeCfg keeps the background merger from merging (scorch's exported event
+// callback vetoes every merge), so the index keeps many small file segments
+// with deletions spread over them.
+var registerVeto sync.Once
+
+func noMergeCfg() bx.Config {
+	registerVeto.Do(func() {
+		scorch.RegistryEventCallbacks["verif-veto-merge"] = func(e scorch.Event) bool {
+			return e.Kind != scorch.EventKindPreMergeCheck
+		}
+	})
+	cfg := bx.ScorchDiskUnsafe
+	cfg.Name = "scorch-disk-nomerge"
+	cfg.KVConfig = map[string]interface{}{"unsafe_batch": true, "eventCallbackName": "verif-veto-merge"}
+	return cfg
+}
+
+// noMergeLayout: many file segments, answers before and after reopen (no merge at all).
+func noMergeLayout() layout {
+	return layout{"disk-nomerge", func(c *core.Ctx, h history) ([]any, error) {
+		cfg := noMergeCfg()
+		dir := c.TempDir("c05n")
+		defer os.RemoveAll(dir)
+		idx, err := cfg.New(dir, buildMapping())
+		if err != nil {
+			return nil, err
+		}
+		defer func() {
+			if idx != nil {
+				_ = idx.Close()
+			}
+		}()
+		for _, cs := range oneCallPerBatch(h) {
+			if err := applyBatch(idx, cs); err != nil {
+				return nil, err
+			}
+			if sc := bx.AsScorch(idx); sc != nil {
+				bx.WaitPersisted(sc, 30*time.Second) // one file segment per batch
+			}
+		}
+		out, err := answers(idx, h.ID, "disk-nomerge/persisted")
+		if err != nil {
+			return nil, err
+		}
+		if err := idx.Close(); err != nil {
+			return nil, err
+		}
+		idx, err = bleve.OpenUsing(filepath.Join(dir, "idx"), map[string]interface{}{"eventCallbackName": "verif-veto-merge"})
+		if err != nil {
+			idx = nil
+			return nil, fmt.Errorf("reopen: %v", err)
+		}
+		a, err := answers(idx, h.ID, "disk-nomerge/reopened")
+		if err != nil {
+			return nil, err
+		}
+		return append(out, a...), nil
+	}}
+}
+
+// midMergeLayout: a forced merge in the middle of the history, further batches
+// on top of the merged segment (merged segments encode single-hit terms specially).
+func midMergeLayout() layout {
+	return layout{"disk-midmerge", func(c *core.Ctx, h history) ([]any, error) {
+		dir := c.TempDir("c05m")
+		defer os.RemoveAll(dir)
+		idx, err := bx.ScorchDiskUnsafe.New(dir, buildMapping())
+		if err != nil {
+			return nil, err
+		}
+		defer idx.Close()
+		acts := oneCallPerBatch(h)
+		for i, cs := range acts {
+			if err := applyBatch(idx, cs); err != nil {
+				return nil, err
+			}
+			if i == len(acts)/2 || i == (3*len(acts))/4 {
+				sc := bx.AsScorch(idx)
+				bx.WaitPersisted(sc, 30*time.Second)
+				if err := bx.ForceMerge(sc); err != nil {
+					return nil, err
+				}
+			}
+		}
+		return answers(idx, h.ID, "disk-midmerge")
+	}}
+}
+
 func layouts(c *core.Ctx) []layout {
 	ls := []layout{
 		memLayout("mem/as-given", asGiven),
@@ -366,6 +458,8 @@ func layouts(c *core.Ctx) []layout {
 		memLayout("mem/one-call-per-batch-reversed", oneCallPerBatch),
 		diskLayout("disk-unsafe", bx.ScorchDiskUnsafe),
 		diskLayout("disk-3workers", bx.ScorchWorkers3),
+		noMergeLayout(),
+		midMergeLayout(),
 	}
 	if c.Thorough() {
 		ls = append(ls, diskLayout("disk-safe", bx.ScorchDisk), diskLayout("disk-zap15", bx.ScorchZap15), diskLayout("disk-zap16", bx.ScorchZap16))
@@ -374,7 +468,7 @@ func layouts(c *core.Ctx) []layout {
 }
 
 func run(c *core.Ctx) error {
-	c.SetRule("one evaluation = one request of the battery (9 requests: match, phrase+highlight+locations, conj(term, bool(must, should)), bool must/should/must-not, disjunction min 2, numeric range + numeric sort + fields, match_all + terms/numeric facets + paging, prefix, score:none) sent to one layout of one TLC-generated history; " +
+	c.SetRule("one evaluation = one request of the battery (11 requests: match, phrase+highlight+locations, conj(term, bool(must, should)), bool must/should/must-not, disjunction min 2, numeric range + numeric sort + fields, match_all + terms/numeric facets + paging, prefix, score:none) sent to one layout of one TLC-generated history; " +
 		"distinct_nontrivial = distinct (history, request) whose answer has at least one hit and that was compared across >= 2 layouts")
 	c.Assume("sorts are made total by appending _id (natural-order tie-breaking legitimately depends on layout)")
 	mcfg := "Index_mc_quick.cfg"
